@@ -23,7 +23,8 @@ RULE = ('JSON: documents of 0-6 boards written by the real JsonBoardSettingWrite
         'trailing / double spaces; read through io.StringIO and through a real file opened in text mode. Plus a text soup with '
         'comments, stray quotes and brackets for the reader model. Independent oracle: parse_board_settings == the generated '
         'boards. distinct = distinct op lines.')
-TRUSTED = ['re (TAG_PATTERN, REPLACE_PATTERN) is represented by hand-written scanners in Model/Pbn.lean (differential-tested here)',
+TRUSTED = ['the MiniPy semantics (Model/MiniPy.lean: value semantics, no aliasing) and the code translator (harness/translate_py.py), validated on every run by executing the translated program next to the real code (counters translated_*)',
+           're (TAG_PATTERN, REPLACE_PATTERN) is represented by hand-written scanners in Model/Pbn.lean (differential-tested here)',
            'text-mode line iteration = split after LF (io.StringIO) / universal newlines then split (open())',
            'as C12 for the JSON half']
 ASSUMPTIONS = ['tag values contain no double quote, no line end and no comment opener ("; " or "{ "); table rows moreover no "[" '
@@ -33,6 +34,9 @@ REQUIRED_COUNTERS = {t: ['layouts', 'layout_lf', 'layout_crlf', 'header_lines', 
                          'settings_documents', 'settings_with_dda', 'soup_texts']
                      for t in ('quick', 'thorough')}
 
+
+# areas of the pure core whose TRANSLATION (Generated/PyCore.lean) is run next to the real code in this check
+TRANSLATED_AREAS = ('json',)
 
 def prepare(workdir):
     return pC12.prepare(workdir)
